@@ -95,6 +95,7 @@ def npz_case(ctx, case):
             same_td(ctx, sig, td, td3, "env.load_data of an npz written by save_tensordict_to_npz")
         same_behaviour(ctx, sig, env, td, env, td2, names, seed, 8 * cfg["n"] + 60, "instances restored from npz")
         ctx.nontrivial_case(dict(c=case))
+        ctx.sample(dict(case=case, keys=sorted(str(k) for k in td.keys())))
     finally:
         shutil.rmtree(d, ignore_errors=True)
 
@@ -355,6 +356,54 @@ def checkpoint_case(ctx, case):
                     ctx.violation(dict(sig, q="critic_weights"), "critic weights differ after restore", None)
                     return
         ctx.nontrivial_case(dict(c=case))
+        ctx.sample(dict(case=case, greedy_rewards=a["reward"].tolist()))
     finally:
         os.chdir(cwd)
+        shutil.rmtree(d, ignore_errors=True)
+
+
+def multifile_case(ctx, case):
+    """several val/test files registered by name: env.dataset(phase=...) must return, under every name, the content of the
+    file registered under that name (files of different sizes in the library's usual non-lexicographic size order)."""
+    import numpy as np
+
+    from rl4co.data.generate_data import generate_dataset
+    import rl4co.envs as E
+    from torch.utils.data import DataLoader
+
+    prob, sizes, seed, phase = case["problem"], case["sizes"], case["s"], case["phase"]
+    d = scratch()
+    sig = dict(kind="multifile", problem=prob, named=case["named"])
+    try:
+        files, raws = [], {}
+        for n in sizes:
+            fn = f"{prob}{n}_{phase}.npz"
+            generate_dataset(filename=os.path.join(d, fn), problem=prob, dataset_size=case["N"], graph_sizes=[n], seed=seed + n, overwrite=True)
+            files.append(fn)
+            raws[fn] = dict(np.load(os.path.join(d, fn)))
+        names = [f"{prob}{n}" for n in sizes] if case["named"] else None
+        cls = {"tsp": E.TSPEnv, "vrp": E.CVRPEnv}[prob]
+        kw = {f"{phase}_file": files, "data_dir": d}
+        if names:
+            kw[f"{phase}_dataloader_names"] = names
+        env = cls(generator_params=dict(num_loc=sizes[0]), **kw)
+        dsets = env.dataset(phase=phase)
+        ctx.count("c19_multifile_sets")
+        keys = names or [str(i) for i in range(len(files))]
+        if not isinstance(dsets, dict) or list(dsets.keys()) != keys:
+            ctx.evaluation()
+            ctx.violation(dict(sig, q="names"), f"datasets returned under {list(dsets.keys()) if isinstance(dsets, dict) else type(dsets)}, expected {keys}", None)
+            return
+        for key, fn in zip(keys, files):
+            ds = dsets[key]
+            td = next(iter(DataLoader(ds, batch_size=case["N"], collate_fn=ds.collate_fn)))
+            want = torch.from_numpy(raws[fn]["locs"])
+            ctx.evaluation()
+            ctx.count("c19_multifile_checks")
+            if td["locs"].shape != want.shape or not torch.equal(td["locs"], want):
+                ctx.violation(dict(sig, q="name_file_pairing"), f"the dataset registered as '{key}' does not hold the content of its file {fn} (locs {tuple(td['locs'].shape)} vs {tuple(want.shape)})", dict(files=files, names=keys))
+                return
+        ctx.nontrivial_case(dict(c=case))
+        ctx.sample(dict(case=case, names=keys))
+    finally:
         shutil.rmtree(d, ignore_errors=True)
